@@ -40,7 +40,7 @@ def model_check(chk, wdir, tier, only=None):
     chk.cov['exec_model_variants_refuted'] = [c for c, e in MC if e and (only is None or c in only)]
 
 
-def gen(tier, kinds=('plain', 'window', 'kill', 'fatal'), nkill=8):
+def gen(tier, kinds=('plain', 'window', 'kill', 'fatal', 'conc'), nkill=8):
     rng = random.Random(vlib.seed() * 7001 + 12 + len(kinds))
     cases = []
 
@@ -64,6 +64,9 @@ def gen(tier, kinds=('plain', 'window', 'kill', 'fatal'), nkill=8):
     # user code that fails persistently; afterwards a healthy program in the same session
     for nshard in (1, 2, 3):
         add(kind='fatal', nshard=nshard, discard=False)
+    # two invocations consume the result concurrently, without and with a Discard racing with them (after `gate` ms)
+    for nshard, dis, delay in [(2, False, 0), (2, True, 0), (3, True, 1), (2, True, 3), (3, True, 6)] + ([(2, True, d) for d in (2, 4, 8, 12)] if tier != 'quick' else []):
+        add(kind='conc', nshard=nshard, discard=dis, gate=delay)
     # a machine dies at an executor event
     evs = ['BmGrant', 'BmCall', 'BmReply', 'BmSetLoc', 'BmOkSet']
     pts = [(e, n) for e in evs for n in range(1, 5)]
@@ -175,7 +178,7 @@ def drift_check(chk, wdir, recs):
         chk.cov['exec_conformance_selftest'] = res
 
 
-def run(chk, w, tier, replay_case=None, kinds=('plain', 'window', 'kill', 'fatal'), nkill=8, mc_only=None):
+def run(chk, w, tier, replay_case=None, kinds=('plain', 'window', 'kill', 'fatal', 'conc'), nkill=8, mc_only=None):
     wdir = w.root + '/tlc'
     if replay_case is not None:
         cases = [replay_case]
